@@ -68,7 +68,7 @@ symbolically on a non-empty one.  So any way of writing the five functions insid
 `min(values)` (raises on no values) … are refused. -/
 
 inductive Sym where
-  | none | lit (i : Int) | len | sum | min | max | avg | err (c : String) | unknown
+  | none | lit (i : Int) | len | sum | min | max | avg | favg | err (c : String) | unknown
   deriving DecidableEq, Repr
 
 /-- the meaning of a symbolic result for a non-empty list of non-null values -/
@@ -80,6 +80,7 @@ def denote (xs : List Int) : Sym → AVal
   | .min => match least xs with | some m => .int m | none => .none
   | .max => match greatest xs with | some m => .int m | none => .none
   | .avg => .ratio (total xs) xs.length
+  | .favg => .fratio (total xs) xs.length
   | .err c => .err c
   | .unknown => .none
 
@@ -93,7 +94,9 @@ def symA : AExpr → Sym
   | .minD _ => .min
   | .maxD _ => .max
   | .decimal e => match symA e with | .none => .err "TypeError" | s => s
-  | .div a b => match symA a, symA b with | .sum, .len => .avg | _, _ => .unknown
+  | .div a b => match symA a, symA b with
+    | .sum, .len => if isDec a || isDec b then .avg else .favg
+    | _, _ => .unknown
   | .orElse a b =>
     match symA a with
     | .none => symA b
@@ -136,6 +139,7 @@ theorem symA_sound (e : AExpr) (x : Int) (xs : List Int) (h : symA e ≠ .unknow
     | min => rw [ih (by rw [hs]; simp), hs]; simp only [denote, hl]
     | max => rw [ih (by rw [hs]; simp), hs]; simp only [denote, hg]
     | avg => rw [ih (by rw [hs]; simp), hs]; rfl
+    | favg => rw [ih (by rw [hs]; simp), hs]; rfl
     | err c => rw [ih (by rw [hs]; simp), hs]; rfl
   | div a b iha ihb =>
     simp only [symA] at h ⊢
@@ -145,6 +149,7 @@ theorem symA_sound (e : AExpr) (x : Int) (xs : List Int) (h : symA e ≠ .unknow
     have hpos : (0 : Int) < (((x :: xs).length : Nat) : Int) := by
       simp only [List.length_cons]; omega
     simp only [hpos, if_true, Int.toNat_natCast]
+    split <;> rfl
   | orElse a b iha ihb =>
     simp only [symA] at h ⊢
     simp only [evalA]
@@ -173,6 +178,7 @@ theorem symA_sound (e : AExpr) (x : Int) (xs : List Int) (h : symA e ≠ .unknow
     | min => rw [ha] at h; exact absurd rfl h
     | max => rw [ha] at h; exact absurd rfl h
     | avg => rw [ha] at h; exact absurd rfl h
+    | favg => rw [ha] at h; exact absurd rfl h
     | err c => rw [ha] at h; exact absurd rfl h
     | unknown => rw [ha] at h; exact absurd rfl h
   | ifEmpty a b _ ihb =>
@@ -694,6 +700,7 @@ def repaired : Program :=
   { key := .tuple
     registers := true
     value := .starIfMissing
+    colIndex := .indexIfPresent
     yieldGuards := []
     via := .frame
     collect := .dedup
